@@ -82,6 +82,9 @@ func toInts(b []byte) []int {
 
 func toCSR(rs []rng) charcode.CodeSpaceRange {
 	var csr charcode.CodeSpaceRange
+	if rs != nil && len(rs) == 0 {
+		csr = charcode.CodeSpaceRange{}
+	}
 	for _, r := range rs {
 		csr = append(csr, charcode.Range{Low: toBytes(r.Lo), High: toBytes(r.Hi)})
 	}
@@ -107,6 +110,42 @@ func observe(rs []rng, probes [][]int, origin string) (rec record) {
 			Reenc: toInts(re), Valid2: valid2, Consumed2: consumed2, Code2: le4(uint32(code2))})
 	}
 	return rec
+}
+
+// emptyCodeSpace is an extension beyond C12's statement: a code space
+// without ranges (nil and empty), where go-pdf documents that every byte is
+// consumed as an invalid one-byte code.  Charcode.RefDecode({}, s) says the
+// same, so the records are judged by Trace_Charcode like all others, but a
+// rejection is printed as NOTE only.
+func emptyCodeSpace() []record {
+	var probes [][]int
+	vals := []int{0x00, 0x01, 0x7f, 0x80, 0xff}
+	for n := 1; n <= 5; n++ {
+		for _, a := range vals {
+			for _, b := range vals {
+				s := make([]int, n)
+				for i := range s {
+					if i%2 == 0 {
+						s[i] = a
+					} else {
+						s[i] = b
+					}
+				}
+				probes = append(probes, s)
+			}
+		}
+	}
+	var out []record
+	for _, origin := range []string{"empty-code-space/nil", "empty-code-space/empty"} {
+		var rs []rng
+		if strings.HasSuffix(origin, "/empty") {
+			rs = []rng{}
+		}
+		rec := observe(rs, probes, origin)
+		rec.Ranges = []rng{}
+		out = append(out, rec)
+	}
+	return out
 }
 
 func canon(rs []rng) string {
@@ -288,6 +327,7 @@ func run(ctx *core.Ctx) error {
 	}
 	nsus := len(recs)
 	recs = append(recs, randomRecords(ctx)...)
+	recs = append(recs, emptyCodeSpace()...)
 	bad, err := core.JudgeCases(ctx, core.TLCOpts{Dir: "font", Module: "Trace_Charcode", Cfg: "Trace_Charcode.cfg", XssMB: 512,
 		Timeout: ctx.Dur(10, 30)}, recs, 100, 16)
 	if err != nil {
@@ -296,6 +336,13 @@ func run(ctx *core.Ctx) error {
 	isBad := map[int]bool{}
 	for _, b := range bad {
 		isBad[b] = true
+		if len(recs[b].Ranges) == 0 {
+			// extension: ISO 32000-2 9.7.6.3 prescribes nothing for a code
+			// space without ranges and C12 quantifies over non-empty sets
+			fmt.Printf("NOTE extension=empty-code-space key=codec/n=0/%s font/charcode on a code space without ranges departs from the documented behaviour (every byte is an invalid one-byte code, no ranges reported)\n", recs[b].Origin)
+			ctx.Ev.Add("extension_findings", 1)
+			continue
+		}
 		report(ctx, recs[b])
 	}
 	for i := 0; i < nsus; i++ {
